@@ -2,8 +2,10 @@ import PromModel.Tsdb.Checkpoint
 import PromModel.Tsdb.Intervals
 /-
   The server head's side of C15 (tsdb/head.go, head_wal.go, head_append.go), record level, for the
-  configuration the `ckpt` suite drives: one huge chunk range (a series has exactly one head chunk, so
-  head GC removes a series iff its newest sample is older than the head's min time), out-of-order
+  configuration the `ckpt` suite drives: one huge chunk range 2^40 (a series has one head chunk per aligned
+  range: with |t| < 2^40 that is one chunk for its samples at negative times — `rangeStartForTimestamp`
+  floors — and one for the others; head GC drops a chunk iff its newest sample is older than the head's
+  min time, and the series with its last chunk), out-of-order
   ingestion disabled, float samples (+ stale markers), exemplars, metadata, deletions.
 
   Transcribed: `headAppender` admission (`t < minValidTime` ⇒ out of bounds; per-series order),
@@ -27,6 +29,10 @@ structure HSeries where
   smps : List (Int × Nat) := []     -- the samples of the (single) head chunk; v = 0 is a stale marker
   tombs : Ivs := []
   mid : Option Nat := none
+  /-- replay only: a later series record bound this ref to ANOTHER label set (possible once refs were
+      re-issued, finding C22-F2, in the retained full log): `stripeSeries.setUnlessAlreadySet` overwrites the
+      by-ref entry, the older series stays reachable by label hash only (and is visited by `gc`). -/
+  hidden : Bool := false
 deriving Repr, Inhabited
 
 /-- What replay / the head holds besides the log. -/
@@ -52,12 +58,12 @@ def HSeries.maxTime (s : HSeries) : Int := match s.smps.getLast? with | some x =
 def HSeries.minTime (s : HSeries) : Int := match s.smps.head? with | some x => x.1 | none => MinI64
 def HSeries.isStale (s : HSeries) : Bool := match s.smps.getLast? with | some x => x.2 = 0 | none => false
 
-def Mem.byRef (m : Mem) (r : Nat) : Option HSeries := m.series.find? (·.ref = r)
+def Mem.byRef (m : Mem) (r : Nat) : Option HSeries := m.series.find? fun s => s.ref = r && !s.hidden
 def Mem.byLid (m : Mem) (l : Nat) : Option HSeries := m.series.find? (·.lid = l)
 def Mem.initialized (m : Mem) : Bool := m.minT ≠ MaxI64
 
 def Mem.upd (m : Mem) (s : HSeries) : Mem :=
-  { m with series := m.series.map fun x => if x.ref = s.ref then s else x }
+  { m with series := m.series.map fun x => if x.ref = s.ref && x.hidden = s.hidden then s else x }
 
 def getExp (m : List (Nat × Int)) (r : Nat) : Option Int := (m.find? (·.1 = r)).map (·.2)
 
@@ -80,7 +86,12 @@ def addTomb (ts : Ivs) (iv : Iv) : Ivs :=
 def Mem.gc (m : Mem) : Mem :=
   let mint := m.minT
   let keepS := fun (s : HSeries) => decide (s.smps ≠ [] ∧ s.maxTime ≥ mint)
-  let rest := m.series.filter keepS
+  let cut := fun (s : HSeries) =>
+    -- `truncateChunksBefore`: the chunk of the negative times goes when its newest sample is below `mint`
+    match (s.smps.filter fun x => decide (x.1 < 0)).getLast? with
+    | some x => if x.1 < mint then { s with smps := s.smps.filter fun x => decide (x.1 ≥ 0) } else s
+    | none => s
+  let rest := (m.series.filter keepS).map cut
   let dead := m.series.filter fun s => !keepS s
   let actual : Int := rest.foldl (fun a s => min a s.minTime) MaxI64
   let actual := if actual = MaxI64 then mint else actual
@@ -89,7 +100,7 @@ def Mem.gc (m : Mem) : Mem :=
 
 /-- `keepSeriesInWALCheckpointFn(mint)`. -/
 def Mem.keep (m : Mem) (mint : Int) (ref : Nat) : Bool :=
-  m.series.any (·.ref = ref) || (match getExp m.walExp ref with | some k => decide (k ≥ mint) | none => false)
+  (m.byRef ref).isSome || (match getExp m.walExp ref with | some k => decide (k ≥ mint) | none => false)
 
 def Head.log (h : Head) (rs : List Rec) : Head :=
   { h with wal := h.wal.log rs, retained := h.retained ++ rs }
@@ -137,8 +148,17 @@ def txItem (acc : Mem × Tx) : Item → Mem × Tx
     else if (s.smps ≠ [] ∨ pendLast.isSome) ∧ t ≤ lastT then (m, { tx with res := tx.res ++ ["dup"] })
     else
       let x : Smp := ⟨s.ref, t, v⟩
-      (m, { tx with floats := tx.floats ++ [x], exs := if ex then tx.exs ++ [x] else tx.exs,
-                    res := tx.res ++ [s!"ok:{s.ref}"] })
+      -- `AppendExemplar` → `ValidateExemplar` against the newest stored exemplar of the label set (the
+      -- storage outlives the series): equal ⇒ silently dropped, older (or same time, smaller value) ⇒ error
+      let newest := (m.exs.filter (·.1 = lid)).getLast?
+      let (keepEx, sfx) : Bool × String := if !ex then (false, "") else match newest with
+        | none => (true, "")
+        | some n =>
+          if n.2.1 = t ∧ n.2.2 = v then (false, "")
+          else if t < n.2.1 ∨ (t = n.2.1 ∧ v < n.2.2) then (false, "!out_of_order_exemplar")
+          else (true, "")
+      (m, { tx with floats := tx.floats ++ [x], exs := if keepEx then tx.exs ++ [x] else tx.exs,
+                    res := tx.res ++ [s!"ok:{s.ref}{sfx}"] })
   | .mdata lid mid =>
     let (m, tx) := acc
     let tx := match tx.mv with | some _ => tx | none => { tx with mv := some m.appendableMinValid }
@@ -256,7 +276,7 @@ def replayStone (m : Mem) (st : Stone) : Mem :=
     match m.byRef ref with
     | none => m
     | some s =>
-      let m := { m with series := m.series.filter (·.ref ≠ ref) }
+      let m := { m with series := m.series.filter fun x => !(x.ref = ref && !x.hidden) }
       if s.smps ≠ [] then { m with walExp := updExp m.walExp ref s.maxTime } else m
   else
     (st.ivs.foldl (fun (acc : Mem × Nat) iv =>
@@ -278,7 +298,9 @@ def replayRec (m : Mem) : Rec → Mem
         -- duplicate series record: `resetSeriesWithMMappedChunks` drops the head chunk replayed so far
         -- ("any samples replayed till now would already be compacted")
         { m.upd { s with smps := [] } with multi := setMulti m.multi p.1 s.ref }
-      | none => { m with series := m.series ++ [{ ref := p.1, lid := p.2 }] }) m
+      | none =>
+        { m with series := (m.series.map fun x => if x.ref = p.1 then { x with hidden := true } else x) ++
+                             [{ ref := p.1, lid := p.2 }] }) m
   | .smp .float xs => xs.foldl (replaySample false) m
   | .smp .ex xs => xs.foldl (replaySample true) m
   | .smp _ _ => m             -- histogram records: not written by the head configuration of this suite
